@@ -118,6 +118,7 @@ extern size_t sk_arena_size;
 /* set by the driver: called when a library call blocks; must apply >=1 environment
  * step and return 1, or return 0 if no environment step is available. */
 extern int (*sk_env_pull)(void);
+extern void (*sk_yield_hook)(int kind);
 /* called when a block cannot be resolved (no env step left): never returns */
 extern void (*sk_on_hang)(const char *what);
 
